@@ -1,10 +1,13 @@
 """C07 — byte sequences behave as a flat zero-extended byte array.
 
-Obligations: Props/C07.vo (theorems about Model/ByteVecModel.v + Model/ByteVecHeapModel.v
-against Spec/ByteVecSpec.v), lint.  Tie X-C07: operation sequences over a small store of
-real halmos.bytevec.ByteVec objects vs the extracted heap-level model (after EVERY step,
-for EVERY live object: raised?, len, recursive chunk layout, flat content) vs an
-independent Python flat-array reference (value semantics).
+Obligations: Props/C07.vo (theorems about Model/ByteVecModel.v + Model/ByteVecHeapModel.v + Model/MemOpsModel.v
+against Spec/ByteVecSpec.v + Spec/MemSpec.v, re-checked against Gen/GenByteVecSugar.v, GenMemWire.v, GenCodeSlice.v
+regenerated from bytevec.py / sevm.py / contract.py), lint.
+Tie X-C07: operation sequences over a small store of real halmos.bytevec.ByteVec objects vs the extracted heap-level
+model (after EVERY step, for EVERY live object: raised?, len, recursive chunk layout, flat content) vs an independent
+Python flat-array reference (value semantics).
+Tie X-C07-mem (harness/c07_mem.py): the real SEVM on hand-assembled programs of memory instructions, message calls and
+a path fork vs the extracted MemOpsModel vs an independent Python rendering of the EVM memory semantics.
 """
 import functools
 import hashlib
@@ -27,14 +30,18 @@ KNOWN = common.known_for("C07")  # entries live in /verif/known_findings.json
 
 PARTIAL = (
     "CPython aliasing outside the modelled object store (two Exec objects holding the same ByteVec by reference) "
-    "is not expressible in the model; ByteVec.concretize, __eq__, __setitem__/__getitem__ sugar and the int/bool "
-    "conversions of set_word / unbox_int of get_word are exercised by the run (value forms) but not modelled beyond "
-    "the bytes they denote; z3's simplify/Concat/Extract are trusted to preserve denotation"
+    "is not expressible in the model; ByteVec.concretize, __eq__ and the int/bool conversions of set_word / unbox_int of "
+    "get_word are exercised by the runs (value forms) but not modelled beyond the bytes they denote; z3's "
+    "simplify/Concat/Extract are trusted to preserve denotation, and the kind (bytes vs BitVecRef) z3 gives a symbolic "
+    "chunk whose bytes are all constant is not modelled (compared modulo that); the memory-instruction layer does not "
+    "model the MAX_MEMORY_SIZE guards (OutOfGasError), symbolic offsets / sizes (NotConcreteError) and the "
+    "symbolic-offset branch of CODECOPY; the SEVM runs observe the END state of every reported path, not every step"
 )
 ASSUMPTIONS = [
     "values handed to a mutator are never the receiver object itself (v.set_slice(a, b, v) iterates a dict it mutates)",
     "isolation theorem proviso: an object that some dict references as a nested chunk (stored whole by the aligned fast path of set_slice) is not mutated afterwards; shown necessary by C07_alias_refuted and reproduced on the real code by the alias probe; in sevm.py only copy_returndata_to_memory passes a ByteVec that something else still references (the callee's returndata, never mutated afterwards)",
     "the extracted model and driver are faithful to the Coq definitions (extraction is trusted)",
+    "the three translators render the Python expressions they accept faithfully (translate/pyexpr.py; py_or / py_if_not_none in the generated header are Python's `x or d` / `x if x is not None else d` on int-or-None)",
 ]
 ALIAS_NOTE = "aligned set_slice(a, b, w) with w a ByteVec stores w itself; a later w.set_byte shows through the holder and every copy() of it"
 
@@ -1080,7 +1087,7 @@ def run(rep, tier):
         trusted_base=common.TRUSTED_BASE_COMMON,
         assumptions=ASSUMPTIONS,
         partial=PARTIAL,
-        rule="cases = sequences of steps over a store of ByteVec objects (new, copy, slice kept as object, append, set_byte, set_slice, set_word; values = bytes / BitVecVal / int / HalmosBitVec / fresh z3 symbols / Chunk windows into longer data / slices of the receiver or of another object / a whole ByteVec object), followed by get_byte on a grid, unwrap and get_word of every object; corpus, exhaustive short sequences, then seeded random sequences over per-case sub-grids of [0,1,2,30,31,32,33,63,64,65] so that writes land exactly on existing chunk boundaries. After EVERY step EVERY live object is compared (raised?, len, recursive chunk layout [(key,len,kind,start,data_len)], flat content; symbolic bytes by identity, else under 2 valuations) with the extracted heap model and with the flat reference. Generated cases respect the isolation proviso (an object passed whole is never a receiver afterwards). Non-trivial = some write took the aligned or general path of set_slice, split a chunk with set_byte, or was an overlapping self copy; distinct by hash of the step list",
+        rule="(1) ByteVec store: cases = sequences of steps over a store of ByteVec objects (new, copy, slice kept as object, append, set_byte, set_slice, set_word; values = bytes / BitVecVal / int / HalmosBitVec / fresh z3 symbols / Chunk windows into longer data / slices of the receiver or of another object / a whole ByteVec object; plain calls, the __setitem__ sugar with explicit and omitted bounds, the State wrappers of sevm.py), followed by get_byte on a grid, unwrap and get_word of every object; corpus, exhaustive short sequences, then seeded random sequences over per-case sub-grids of [0,1,2,30,31,32,33,63,64,65] so that writes land exactly on existing chunk boundaries. After EVERY step EVERY live object is compared (raised?, len, recursive chunk layout [(key,len,kind,start,data_len)], flat content; symbolic bytes by identity, else under 2 valuations) with the extracted heap model and with the flat reference. Generated cases respect the isolation proviso (an object passed whole is never a receiver afterwards). Non-trivial = some write took the aligned or general path of set_slice, split a chunk with set_byte, or was an overlapping self copy. (2) slice sugar: bv[start:stop] = bytes and bv[start:stop] over a grid of optional bounds (omitted, explicit 0, inside, at and beyond the end). (3) memory instructions: programs assembled from 1..7 of MSTORE (PUSH32 or CALLDATALOAD value) / MSTORE8 / MLOAD+MSTORE / CALLDATACOPY / CODECOPY / EXTCODECOPY (account with code, with empty code, without account) / RETURNDATACOPY (in bounds, at the end, beyond) / MCOPY (overlapping) / message calls (STATICCALL, CALL, DELEGATECALL, CALLCODE; callee = 0..3 instructions then RETURN or REVERT of a window of its memory, possibly halting; output area smaller / equal / larger than the returned data), optionally a JUMPI on the symbolic CALLVALUE forking the path (often on a still empty memory) and a final RETURN / REVERT; calldata = concrete bytes and z3 symbols; offsets and sizes from a grid around 0, 32, 64 and the current ends. The real SEVM runs the program; for every reported path the final memory (length, recursive chunk layout, content), the returndata buffer, MSIZE and the output data are compared with the flat EVM semantics (failing input) and with the extracted MemOpsModel (broken tie). Non-trivial = the path ran to its end through >= 2 instructions; distinct by hash of the case",
     )
 
 
